@@ -6,7 +6,10 @@ package sqlx
 // A commonConn from NewConnFromDB over a scripted database/sql driver; its real
 // breaker is kept and only wrapped by a transparent spy that notes whether the
 // protected function ran and what the conn's acceptable-predicate answered.
-// Rows: path (Exec / QueryRow / Transact) x outcome, each on a fresh conn.
+// Rows: conn flavour (plain / accept option set / NewMySQL) x every entry point
+// that goes through the conn's breaker x outcome, each on a fresh conn. The
+// built-in benign set must stay benign on conns that carry a custom accept
+// function (the option extends the set, it does not replace it).
 
 import (
 	"context"
@@ -18,6 +21,7 @@ import (
 	"testing"
 	"time"
 
+	"github.com/go-sql-driver/mysql"
 	"github.com/gotid/god/lib/breaker"
 	"github.com/gotid/god/lib/logx"
 	"github.com/gotid/god/lib/stat"
@@ -40,9 +44,14 @@ func (c01Drv) Open(string) (driver.Conn, error) { return nil, errors.New("c01: u
 
 type c01DConn struct{ s *c01Script }
 
-func (c *c01DConn) Prepare(string) (driver.Stmt, error) { return nil, errors.New("c01: no prepare") }
-func (c *c01DConn) Close() error                        { return nil }
-func (c *c01DConn) Begin() (driver.Tx, error)           { return c01Tx{}, nil }
+func (c *c01DConn) Prepare(string) (driver.Stmt, error) {
+	if c.s.err != nil {
+		return nil, c.s.err
+	}
+	return c01Stmt{}, nil
+}
+func (c *c01DConn) Close() error              { return nil }
+func (c *c01DConn) Begin() (driver.Tx, error) { return c01Tx{}, nil }
 func (c *c01DConn) ExecContext(ctx context.Context, q string, a []driver.NamedValue) (driver.Result, error) {
 	if c.s.err != nil {
 		return nil, c.s.err
@@ -55,6 +64,13 @@ func (c *c01DConn) QueryContext(ctx context.Context, q string, a []driver.NamedV
 	}
 	return &c01Rows{left: 1}, nil
 }
+
+type c01Stmt struct{}
+
+func (c01Stmt) Close() error                               { return nil }
+func (c01Stmt) NumInput() int                              { return -1 }
+func (c01Stmt) Exec([]driver.Value) (driver.Result, error) { return driver.RowsAffected(1), nil }
+func (c01Stmt) Query([]driver.Value) (driver.Rows, error)  { return &c01Rows{left: 1}, nil }
 
 type c01Tx struct{}
 
@@ -104,176 +120,246 @@ type c01Outcome struct {
 
 var c01Custom = errors.New("c01: error accepted by the conn's custom accept option")
 
+type c01Env struct {
+	conn   *commonConn
+	spy    *c01Spy
+	script *c01Script
+}
+
+// c01NewEnv builds a fresh conn of the given flavour over the scripted driver.
+func c01NewEnv(flavour string) *c01Env {
+	e := &c01Env{script: &c01Script{}}
+	db := sql.OpenDB(c01Connector{s: e.script})
+	var cc *commonConn
+	switch flavour {
+	case "mysql":
+		// the constructor this package offers for MySQL wires the driver-specific accept itself;
+		// only the provider is redirected to the scripted driver
+		c, ok := NewMySQL("c01:c01@tcp(127.0.0.1:1)/c01").(*commonConn)
+		if !ok {
+			return nil
+		}
+		c.provider = func() (*sql.DB, error) { return db, nil }
+		cc = c
+	default:
+		c, ok := NewConnFromDB(db).(*commonConn)
+		if !ok {
+			return nil
+		}
+		if flavour == "custom-accept" {
+			c.accept = func(err error) bool { return err == c01Custom }
+		}
+		cc = c
+	}
+	e.spy = &c01Spy{Breaker: cc.brk}
+	cc.brk = e.spy
+	e.conn = cc
+	return e
+}
+
+var c01Paths = []string{
+	"Exec", "ExecCtx", "Prepare", "PrepareCtx",
+	"QueryRow", "QueryRowCtx", "QueryRowPartial", "QueryRowPartialCtx",
+	"QueryRows", "QueryRowsCtx", "QueryRowsPartial", "QueryRowsPartialCtx",
+	"Transact", "TransactCtx",
+}
+
+// c01Call performs one operation through the entry point path with the scripted
+// outcome and returns the error the caller sees.
+func c01Call(e *c01Env, path string, err error) error {
+	ctx := context.Background()
+	e.script.err = err
+	var v int64
+	var vs []int64
+	const q = "select v from t"
+	switch path {
+	case "Exec":
+		_, got := e.conn.Exec("update t set a = 1")
+		return got
+	case "ExecCtx":
+		_, got := e.conn.ExecCtx(ctx, "update t set a = 1")
+		return got
+	case "Prepare", "PrepareCtx":
+		var st StmtSession
+		var got error
+		if path == "Prepare" {
+			st, got = e.conn.Prepare(q)
+		} else {
+			st, got = e.conn.PrepareCtx(ctx, q)
+		}
+		if got == nil && st != nil {
+			_ = st.Close()
+		}
+		return got
+	case "QueryRow":
+		return e.conn.QueryRow(&v, q)
+	case "QueryRowCtx":
+		return e.conn.QueryRowCtx(ctx, &v, q)
+	case "QueryRowPartial":
+		return e.conn.QueryRowPartial(&v, q)
+	case "QueryRowPartialCtx":
+		return e.conn.QueryRowPartialCtx(ctx, &v, q)
+	case "QueryRows":
+		return e.conn.QueryRows(&vs, q)
+	case "QueryRowsCtx":
+		return e.conn.QueryRowsCtx(ctx, &vs, q)
+	case "QueryRowsPartial":
+		return e.conn.QueryRowsPartial(&vs, q)
+	case "QueryRowsPartialCtx":
+		return e.conn.QueryRowsPartialCtx(ctx, &vs, q)
+	case "Transact":
+		e.script.err = nil
+		return e.conn.Transact(func(Session) error { return err })
+	default:
+		e.script.err = nil
+		return e.conn.TransactCtx(ctx, func(context.Context, Session) error { return err })
+	}
+}
+
 func TestVerifC01SQLBenignTable(t *testing.T) {
-	m := vk.New(t, "C01", "sqlx conn (NewConnFromDB over a scripted driver, real breaker behind a transparent spy, virtual clock frozen): rows path {Exec, QueryRow, Transact} x outcome; benign {nil, sql.ErrNoRows, sql.ErrTxDone, context.Canceled, custom-accepted error when the accept option is set, not-found scan result} x150 => predicate true every time, protected function always runs; failing {driver error, io.ErrUnexpectedEOF, context.DeadlineExceeded, custom error without the option} x400 => predicate false, at least one call short-circuited with ErrServiceUnavailable; 10000 mixed benign outcomes on one conn => 0 rejections; non-trivial = row completed (benign) / rejected (failing)")
+	m := vk.New(t, "C01", "sqlx conn over a scripted driver, real breaker behind a transparent spy, virtual clock frozen. Rows: conn flavour {plain NewConnFromDB, accept option set, NewMySQL (constructor-wired mysql accept)} x entry point {Exec, Prepare, QueryRow, QueryRowPartial, QueryRows, QueryRowsPartial, Transact and their Ctx forms} x outcome, each on a fresh conn. Benign on EVERY flavour {nil, sql.ErrNoRows, sql.ErrTxDone, context.Canceled} plus what the flavour's own accept declares benign (custom error / MySQL 1062) x150 => predicate true every time and the protected function always runs; failing {driver error, io.ErrUnexpectedEOF, context.DeadlineExceeded, error the flavour does not accept} x400 => predicate false and at least one call short-circuited with ErrServiceUnavailable; 10000 mixed benign outcomes over all entry points on one conn per flavour => 0 rejections; non-trivial = row completed (benign) / rejected (failing)")
 	defer m.Done()
 	logx.Disable()
 	stat.SetReporter(nil)
 	timex.VerifFakeClock(1000*time.Hour + time.Duration(m.Rand("clock").Int63n(int64(time.Hour))))
 	defer timex.VerifRealClock()
 	r := m.Rand("sql")
-	perBenign := vk.N(150, 2000)
-	perBad := vk.N(400, 4000)
+	perBenign := vk.N(150, 1000)
+	perBad := vk.N(400, 2000)
 
 	boom := errors.New("c01: driver: connection reset")
-	outcomes := []c01Outcome{
+	dup := &mysql.MySQLError{Number: 1062, Message: "c01 duplicate entry"}
+	tooMany := &mysql.MySQLError{Number: 1040, Message: "c01 too many connections"}
+	common := []c01Outcome{
 		{"nil", nil, true},
 		{"ErrNoRows", sql.ErrNoRows, true},
 		{"ErrTxDone", sql.ErrTxDone, true},
 		{"context.Canceled", context.Canceled, true},
-		{"custom-accepted", c01Custom, true},
 		{"driver-error", boom, false},
 		{"unexpected-EOF", io.ErrUnexpectedEOF, false},
 		{"context.DeadlineExceeded", context.DeadlineExceeded, false},
-		{"custom-not-accepted", c01Custom, false},
 	}
-	type env struct {
-		conn   Conn
-		spy    *c01Spy
-		script *c01Script
-	}
-	newEnv := func(withAccept bool) *env {
-		e := &env{script: &c01Script{}}
-		db := sql.OpenDB(c01Connector{s: e.script})
-		cc, ok := NewConnFromDB(db).(*commonConn)
-		if !ok {
-			return nil
-		}
-		if withAccept {
-			cc.accept = func(err error) bool { return err == c01Custom }
-		}
-		e.spy = &c01Spy{Breaker: cc.brk}
-		cc.brk = e.spy
-		e.conn = cc
-		return e
-	}
-	// call performs one operation on path with the scripted outcome; returns the error the caller sees
-	call := func(e *env, path string, err error) error {
-		switch path {
-		case "Exec":
-			e.script.err = err
-			_, got := e.conn.ExecCtx(context.Background(), "update t set a = 1")
-			return got
-		case "QueryRow":
-			e.script.err = err
-			var v int64
-			return e.conn.QueryRowCtx(context.Background(), &v, "select v from t")
-		default:
-			e.script.err = nil
-			return e.conn.TransactCtx(context.Background(), func(context.Context, Session) error { return err })
-		}
+	extra := map[string][]c01Outcome{
+		"plain":         {{"custom-not-accepted", c01Custom, false}},
+		"custom-accept": {{"custom-accepted", c01Custom, true}, {"mysql-1062-not-accepted", dup, false}},
+		"mysql":         {{"mysql-1062-duplicate-entry", dup, true}, {"mysql-1040", tooMany, false}, {"custom-not-accepted", c01Custom, false}},
 	}
 	idx := 0
-	var benignRows [][2]any
-	for _, path := range []string{"Exec", "QueryRow", "Transact"} {
-		for _, oc := range outcomes {
-			idx++
-			withAccept := oc.name == "custom-accepted"
-			e := newEnv(withAccept)
-			if e == nil {
-				m.Skip("NewConnFromDB no longer returns *commonConn: SQL table skipped")
-				return
-			}
-			label := path + ":" + oc.name
-			desc := fmt.Sprintf("case=%d;%s with outcome %s on a fresh conn", idx, path, oc.name)
-			if oc.benign {
-				if !withAccept {
-					benignRows = append(benignRows, [2]any{path, oc.err})
+	for _, flavour := range []string{"plain", "custom-accept", "mysql"} {
+		outcomes := append(append([]c01Outcome(nil), common...), extra[flavour]...)
+		var benignErrs []error
+		for _, path := range c01Paths {
+			for _, oc := range outcomes {
+				idx++
+				if !m.Only(idx) {
+					continue
 				}
-				okRow := true
-				for i := 0; i < perBenign; i++ {
+				e := c01NewEnv(flavour)
+				if e == nil {
+					m.Skip("sqlx constructors no longer return *commonConn: SQL table skipped")
+					return
+				}
+				if flavour != "plain" && e.conn.accept == nil {
+					m.Skip("flavour " + flavour + " carries no accept function in this tree")
+				}
+				label := flavour + ":" + path + ":" + oc.name
+				desc := fmt.Sprintf("case=%d;%s conn, %s with outcome %s on a fresh conn", idx, flavour, path, oc.name)
+				if oc.benign {
+					if path == c01Paths[0] {
+						benignErrs = append(benignErrs, oc.err)
+					}
+					okRow := true
+					for i := 0; i < perBenign; i++ {
+						before, vb := e.spy.ran, e.spy.verdicts
+						got := c01Call(e, path, oc.err)
+						m.Count("calls_benign_"+flavour, 1)
+						if e.spy.ran == before {
+							m.Violate("C01:benign:sql:"+label+":dropped", desc, "call #%d short-circuited (%v) after only %s outcomes", i, got, oc.name)
+							okRow = false
+							break
+						}
+						if e.spy.verdicts > vb && !e.spy.lastAcc {
+							m.Violate("C01:benign:sql:"+label+":predicate", desc, "the conn's acceptable-predicate answered false for %v: a benign outcome is recorded as a failure", e.spy.lastErr)
+							okRow = false
+							break
+						}
+					}
+					m.Case("benign-"+label, okRow)
+					continue
+				}
+				rej, first := 0, -1
+				bad := false
+				for i := 0; i < perBad; i++ {
 					before, vb := e.spy.ran, e.spy.verdicts
-					got := call(e, path, oc.err)
-					m.Count("calls_benign", 1)
-					if e.spy.ran == before {
-						m.Violate("C01:benign:sql:"+label+":rejected", desc, "call #%d short-circuited (%v) after only %s outcomes", i, got, oc.name)
-						okRow = false
-						break
-					}
-					if e.spy.verdicts > vb && !e.spy.lastAcc {
-						m.Violate("C01:benign:sql:"+label+":predicate", desc, "the conn's acceptable-predicate answered false for %v", e.spy.lastErr)
-						okRow = false
-						break
-					}
-				}
-				m.Case("benign-"+label, okRow)
-				continue
-			}
-			rej, first := 0, -1
-			bad := false
-			for i := 0; i < perBad; i++ {
-				before, vb := e.spy.ran, e.spy.verdicts
-				got := call(e, path, oc.err)
-				m.Count("calls_failing", 1)
-				if e.spy.ran > before && got == breaker.ErrServiceUnavailable {
-					m.Violate("C01:reject:req-ran", desc, "call #%d ran the protected function and still returned ErrServiceUnavailable", i)
-					bad = true
-					break
-				}
-				if e.spy.ran == before {
-					rej++
-					if first < 0 {
-						first = i
-					}
-					if got != breaker.ErrServiceUnavailable {
-						m.Violate("C01:reject:sql:wrong-error", desc, "short-circuited call #%d returned %v", i, got)
+					got := c01Call(e, path, oc.err)
+					m.Count("calls_failing_"+flavour, 1)
+					if e.spy.ran > before && got == breaker.ErrServiceUnavailable {
+						m.Violate("C01:reject:req-ran", desc, "call #%d ran the protected function and still returned ErrServiceUnavailable", i)
 						bad = true
 						break
 					}
-					continue
+					if e.spy.ran == before {
+						rej++
+						if first < 0 {
+							first = i
+						}
+						if got != breaker.ErrServiceUnavailable {
+							m.Violate("C01:reject:sql:wrong-error", desc, "short-circuited call #%d returned %v", i, got)
+							bad = true
+							break
+						}
+						continue
+					}
+					if e.spy.verdicts > vb && e.spy.lastAcc {
+						m.Violate("C01:nonbenign:sql:"+label+":predicate", desc, "the conn's acceptable-predicate answered true for %v", e.spy.lastErr)
+						bad = true
+						break
+					}
 				}
-				if e.spy.verdicts > vb && e.spy.lastAcc {
-					m.Violate("C01:nonbenign:sql:"+label+":predicate", desc, "the conn's acceptable-predicate answered true for %v", e.spy.lastErr)
-					bad = true
+				m.Count("calls_rejected_"+flavour, int64(rej))
+				if !bad && rej == 0 {
+					m.Violate("C01:nonbenign:sql:"+label+":never-cut-off", desc, "%d consecutive %s outcomes and the statement ran every time", perBad, oc.name)
+				}
+				m.Case("failing-"+label, rej > 0)
+				if oc.name == "driver-error" && (path == "Exec" || path == "TransactCtx") {
+					m.Sample(map[string]any{"scenario": fmt.Sprintf("%s conn, %s: %s x%d", flavour, path, oc.name, perBad), "short_circuited": rej, "first_at_call": first})
+				}
+			}
+		}
+		// scan error (one column into a two-field struct): QueryRow's own scanner error is benign
+		if m.Only(1000 + len(flavour)) {
+			e := c01NewEnv(flavour)
+			okRow := true
+			for i := 0; i < perBenign; i++ {
+				before := e.spy.ran
+				e.script.err = nil
+				var v struct{ A, B int64 }
+				got := e.conn.QueryRowCtx(context.Background(), &v, "select v from t")
+				m.Count("calls_benign_"+flavour, 1)
+				if e.spy.ran == before {
+					m.Violate("C01:benign:sql:"+flavour+":QueryRowCtx:scan-error:dropped", fmt.Sprintf("case=%d;QueryRow whose scanner fails", 1000+len(flavour)), "call #%d short-circuited (%v) after only scanner errors", i, got)
+					okRow = false
 					break
 				}
 			}
-			m.Count("calls_rejected", int64(rej))
-			if !bad && rej == 0 {
-				m.Violate("C01:nonbenign:sql:"+label+":never-cut-off", desc, "%d consecutive %s outcomes and the statement ran every time", perBad, oc.name)
-			}
-			m.Case("failing-"+label, rej > 0)
-			if oc.name == "driver-error" {
-				m.Sample(map[string]any{"scenario": fmt.Sprintf("%s: %s x%d", path, oc.name, perBad), "short_circuited": rej, "first_at_call": first})
-			}
+			m.Case("benign-scan-error-"+flavour, okRow)
 		}
-	}
-	// not-found scan result (driver returns zero rows): QueryRow's own scan error is benign
-	{
-		e := newEnv(false)
-		okRow := true
-		for i := 0; i < perBenign; i++ {
-			before := e.spy.ran
-			e.script.err = nil
-			var v struct{ A, B int64 } // one column into two fields: scan error (not a driver error)
-			got := e.conn.QueryRowCtx(context.Background(), &v, "select v from t")
-			m.Count("calls_benign", 1)
-			if e.spy.ran == before {
-				m.Violate("C01:benign:sql:QueryRow:scan-error:rejected", "case=90;QueryRow whose scanner fails", "call #%d short-circuited (%v) after only scanner errors", i, got)
-				okRow = false
-				break
+		// mixed benign outcomes over all entry points on one conn
+		if m.Only(2000+len(flavour)) && len(benignErrs) > 0 {
+			e := c01NewEnv(flavour)
+			n := vk.N(10000, 100000)
+			for i := 0; i < n; i++ {
+				path := c01Paths[r.Intn(len(c01Paths))]
+				err := benignErrs[r.Intn(len(benignErrs))]
+				before := e.spy.ran
+				got := c01Call(e, path, err)
+				m.Count("calls_benign_mixed_"+flavour, 1)
+				if e.spy.ran == before {
+					m.Violate("C01:benign:sql:"+flavour+":mixed:dropped", fmt.Sprintf("case=%d;mixed benign outcomes on one %s conn", 2000+len(flavour), flavour), "call #%d (%s, %v) short-circuited (%v) although every outcome so far was benign", i, path, err, got)
+					break
+				}
 			}
+			m.Case("mixed-benign-"+flavour, true)
 		}
-		m.Case("benign-scan-error", okRow)
-	}
-	// mixed
-	{
-		e := newEnv(false)
-		n := vk.N(10000, 100000)
-		for i := 0; i < n; i++ {
-			row := benignRows[r.Intn(len(benignRows))]
-			var err error
-			if row[1] != nil {
-				err = row[1].(error)
-			}
-			before := e.spy.ran
-			got := call(e, row[0].(string), err)
-			m.Count("calls_benign_mixed", 1)
-			if e.spy.ran == before {
-				m.Violate("C01:benign:sql:mixed:rejected", "case=100;mixed benign outcomes on one conn", "call #%d (%s, %v) short-circuited (%v)", i, row[0], err, got)
-				break
-			}
-		}
-		m.Case("mixed-benign", true)
 	}
 }
